@@ -4,6 +4,7 @@ package main
 
 import (
 	"fmt"
+	"os"
 	"go/constant"
 	"go/token"
 	"go/types"
@@ -71,12 +72,15 @@ type Translator struct {
 	protected      []string
 	protectedTypes map[string]types.Type
 	appendView     bool
+	inlineAnyway   map[string]bool
 	uninterpStrings bool
 	finfo          []factInfo
 	fidx           map[string][]int
 	fidxN          int
 	defCount       map[string]int
 	noPrune        bool
+	factDefs       map[int]string
+	reachConsts    map[string]bool
 	autoRecvNonNil bool
 	safeOnly       bool
 }
@@ -89,8 +93,8 @@ type closureInfo struct {
 func newTranslator(prog *ssa.Program, spkg *ssa.Package, c *Contracts) *Translator {
 	tr := &Translator{prog: prog, spkg: spkg, tpkg: spkg.Pkg, fset: prog.Fset, contracts: c, u: newUniverse(),
 		typeCache: map[string]types.Type{}, recDefs: map[string]*recInfo{}, globals: map[string]bool{}, funcVals: map[string]bool{},
-		closures: map[string]*closureInfo{}, nameCount: map[string]int{}, trusted: map[string]bool{}, ghosts: map[string]string{}, reflectOf: map[string]*Val{}, protectedTypes: map[string]types.Type{}, defCount: map[string]int{}}
-	for _, cn := range []string{"MBool", "MInt", "MReal", "MStr", "MPtr", "MSlice", "MIface", "ALLOC", "GCnt", "GLast"} {
+		closures: map[string]*closureInfo{}, nameCount: map[string]int{}, trusted: map[string]bool{}, ghosts: map[string]string{}, reflectOf: map[string]*Val{}, protectedTypes: map[string]types.Type{}, defCount: map[string]int{}, inlineAnyway: map[string]bool{}, reachConsts: map[string]bool{}}
+	for _, cn := range []string{"ALLOC", "GCnt", "GLast"} {
 		tr.u.comp(cn)
 	}
 	tr.u.compSort["MLen"] = "(Array Int Int)"
@@ -128,6 +132,19 @@ func (tr *Translator) fact(f string) {
 	if f == "true" {
 		return
 	}
+	tr.facts = append(tr.facts, f)
+}
+
+// factFor adds a fact that only constrains the generated constant `name` (e.g. the relation of a
+// havocked component to its previous value): it is irrelevant to goals that do not depend on name.
+func (tr *Translator) factFor(name, f string) {
+	if f == "true" {
+		return
+	}
+	if tr.factDefs == nil {
+		tr.factDefs = map[int]string{}
+	}
+	tr.factDefs[len(tr.facts)] = name
 	tr.facts = append(tr.facts, f)
 }
 
@@ -182,45 +199,54 @@ func (tr *Translator) obligeAssume(kind, name, goal string, pos token.Pos) {
 // memory
 
 func (tr *Translator) load(st *State, addr string, t types.Type) *Val {
+	return tr.loadTag(st, addr, t, "cell")
+}
+
+// loadTag reads a value of type t at addr; tag names the partition of a leaf-typed cell.
+func (tr *Translator) loadTag(st *State, addr string, t types.Type, tag string) *Val {
 	u := tr.u
 	if s, _ := structOf(t); s != nil {
+		sname := u.sortOf(t)
 		var parts []*Val
 		for i := 0; i < s.NumFields(); i++ {
-			parts = append(parts, tr.load(st, u.fa(addr, t, i), s.Field(i).Type()))
+			parts = append(parts, tr.loadTag(st, u.fa(addr, t, i), s.Field(i).Type(), sname[2:]+"_"+sanitize(s.Field(i).Name())))
 		}
 		return u.mkStruct(t, parts)
 	}
-	if at, ok := t.Underlying().(*types.Array); ok {
-		_ = at
+	if _, ok := t.Underlying().(*types.Array); ok {
 		unsup("load of array value %v", t)
 	}
-	c := compForSort(u, t)
+	c := compForSort(u, t) + "$" + tag
 	return mkVal("(select "+st.get(u, c)+" "+addr+")", u.sortOf(t), t)
 }
 
-func (tr *Translator) store(addr string, t types.Type, v *Val) {
+func (tr *Translator) store(addr string, t types.Type, v *Val) { tr.storeTag(addr, t, v, "cell") }
+
+func (tr *Translator) storeTag(addr string, t types.Type, v *Val, tag string) {
 	u := tr.u
 	if s, _ := structOf(t); s != nil {
+		sname := u.sortOf(t)
 		for i := 0; i < s.NumFields(); i++ {
-			tr.store(u.fa(addr, t, i), s.Field(i).Type(), u.fieldOf(v, i))
+			tr.storeTag(u.fa(addr, t, i), s.Field(i).Type(), u.fieldOf(v, i), sname[2:]+"_"+sanitize(s.Field(i).Name()))
 		}
 		return
 	}
 	if _, ok := t.Underlying().(*types.Array); ok {
 		unsup("store of array value %v", t)
 	}
-	c := compForSort(u, t)
+	c := compForSort(u, t) + "$" + tag
 	tr.setComp(c, "(store "+tr.cur.get(u, c)+" "+addr+" "+v.E()+")")
 }
 
 func (tr *Translator) setComp(c, e string) {
-	n := tr.define(c, tr.u.compSort[c], e)
+	tr.u.comp2(c)
+	n := tr.define(sanitize(c), tr.u.compSort[c], e)
 	tr.cur.M[c] = n
 }
 
 func (tr *Translator) havocComp(c string) string {
 	tr.u.comp2(c)
-	n := tr.u.freshConst(c, tr.u.compSort[c])
+	n := tr.u.freshConst(sanitize(c), tr.u.compSort[c])
 	tr.cur.M[c] = n
 	if strings.HasPrefix(c, "MD_") {
 		// the nil map has an empty domain in every state (stores to it are panics, never modelled)
@@ -575,12 +601,26 @@ func (fc *fctx) enterBlock(b *ssa.BasicBlock) bool {
 		conds = append(conds, in.cond)
 	}
 	reach := tr.define(fc.prefix+"r"+fmt.Sprint(b.Index), "Bool", or(conds...))
+	tr.reachConsts[reach] = true
 	// state merge
 	var st *State
 	if len(ins) == 1 {
 		st = fc.out[ins[0].pred].clone()
 	} else {
 		st = &State{M: map[string]string{}}
+		st.Epoch = fc.out[ins[0].pred].Epoch
+		for _, in := range ins[1:] {
+			if fc.out[in.pred].Epoch != st.Epoch {
+				tr.epoch++
+				st.Epoch = tr.epoch
+				var edges []epochEdge
+				for _, in2 := range ins {
+					edges = append(edges, epochEdge{in2.cond, fc.out[in2.pred].Epoch})
+				}
+				u.epochs[tr.epoch] = epochRel{merge: edges}
+				break
+			}
+		}
 		keys := map[string]bool{}
 		for _, in := range ins {
 			for k := range fc.out[in.pred].M {
@@ -691,49 +731,101 @@ func (fc *fctx) enterBlock(b *ssa.BasicBlock) bool {
 func (tr *Translator) havocAll() {
 	var prot []string
 	var protPtr []string
-	mptrOld := tr.cur.get(tr.u, "MPtr")
 	for _, a := range tr.protected {
 		prot = append(prot, eq("(obase a)", a))
 	}
 	// TREE assumption: the holder objects a local value points to (SchemaOrBool, SchemaOrArray, ...) keep their
 	// pointer fields across a call that received only sub-values of the local (Go values of the model are trees)
+	var protMaps []string
 	for _, a := range tr.protected {
 		t, ok := tr.protectedTypes[a]
-		if !ok {
+		if !ok || os.Getenv("GOVC_NOTREE") != "" {
 			continue
 		}
 		for _, l := range tr.u.leaves(t) {
-			if l.comp != "MPtr" {
+			if kindOfComp(l.comp) != "MPtr" {
+				continue
+			}
+			if _, ok := l.T.Underlying().(*types.Map); ok {
+				m := tr.define("hm", "Int", "(select "+tr.cur.get(tr.u, l.comp)+" "+tr.u.leafAddr(a, t, l.path)+")")
+				protMaps = append(protMaps, and(not(eq(m, "0")), eq("a", m)))
 				continue
 			}
 			if _, ok := l.T.Underlying().(*types.Pointer); !ok {
 				continue
 			}
-			p := "(select " + mptrOld + " " + tr.u.leafAddr(a, t, l.path) + ")"
-			protPtr = append(protPtr, and(not(eq(p, "0")), eq("(obase a)", "(obase "+p+")")))
+			// named as ground constants so that instantiating the quantified protection facts creates no new terms
+			p := tr.define("hp", "Int", "(select "+tr.cur.get(tr.u, l.comp)+" "+tr.u.leafAddr(a, t, l.path)+")")
+			hb := tr.define("hpb", "Int", "(obase "+p+")")
+			protPtr = append(protPtr, and(not(eq(p, "0")), eq("(obase a)", hb)))
 		}
 	}
 	if len(protPtr) > 0 {
 		tr.trusted["TREE: pointer fields of holder objects referenced by a local value are not changed by callees that received only sub-values (model values are trees)"] = true
 	}
-	for _, c := range append([]string{}, tr.u.comps...) {
-		if c == "ALLOC" {
-			old := tr.cur.get(tr.u, "ALLOC")
-			n := tr.havocComp("ALLOC")
-			tr.fact("(>= " + n + " " + old + ")")
-			continue
-		}
-		old := tr.cur.get(tr.u, c)
-		n := tr.havocComp(c)
-		// local variables whose address never leaves the function keep their contents across any call
-		if len(prot) > 0 && strings.HasPrefix(tr.u.compSort[c], "(Array Int ") && strings.HasPrefix(c, "M") && !strings.HasPrefix(c, "MD_") && !strings.HasPrefix(c, "MV_") && c != "MLen" {
-			cond := or(prot...)
-			if (c == "MPtr" || c == "MSlice") && len(protPtr) > 0 {
-				cond = or(append([]string{cond}, protPtr...)...)
+	// components touched on this path get fresh constants (related to their old value on protected locals);
+	// all others are simply named by the new epoch when they are next used
+	touchedSet := map[string]bool{}
+	for _, k := range tr.cur.keys() {
+		touchedSet[k] = true
+	}
+	if len(prot) > 0 {
+		// partitions that were only read so far may hold cells of protected locals / holders too
+		for c := range tr.u.accessed {
+			if strings.Contains(c, "$") {
+				touchedSet[c] = true
 			}
-			tr.fact(fmt.Sprintf("(forall ((a Int)) (! (=> %s (= (select %s a) (select %s a))) :pattern ((select %s a))))", cond, n, old, n))
 		}
 	}
+	if len(protMaps) > 0 {
+		for c := range tr.u.accessed {
+			if strings.HasPrefix(c, "MD_") || strings.HasPrefix(c, "MV_") || c == "MLen" {
+				touchedSet[c] = true
+			}
+		}
+	}
+	var touched []string
+	for k := range touchedSet {
+		touched = append(touched, k)
+	}
+	sort.Strings(touched)
+	oldAlloc := tr.cur.get(tr.u, "ALLOC")
+	oldNames := map[string]string{}
+	for _, c := range touched {
+		if !strings.Contains(c, "IT_") {
+			oldNames[c] = tr.cur.get(tr.u, c)
+		}
+	}
+	tr.epoch++
+	newState := &State{M: map[string]string{}, Epoch: tr.epoch}
+	oldState := tr.cur
+	tr.cur = newState
+	for _, c := range touched {
+		if strings.Contains(c, "IT_") {
+			newState.M[c] = oldState.M[c]
+			continue
+		}
+		if c == "ALLOC" {
+			continue
+		}
+		old := oldNames[c]
+		n := tr.havocComp(c)
+		k := kindOfComp(c)
+		// local variables whose address never leaves the function keep their contents across any call
+		if len(prot) > 0 && strings.Contains(c, "$") {
+			cond := or(prot...)
+			if (k == "MPtr" || k == "MSlice") && len(protPtr) > 0 {
+				cond = or(append([]string{cond}, protPtr...)...)
+			}
+			tr.factFor(n, fmt.Sprintf("(forall ((a Int)) (! (=> %s (= (select %s a) (select %s a))) :pattern ((select %s a))))", cond, n, old, n))
+		}
+		// TREE: maps held directly by a local value keep their contents
+		if len(protMaps) > 0 && (strings.HasPrefix(c, "MD_") || strings.HasPrefix(c, "MV_") || c == "MLen") {
+			tr.factFor(n, fmt.Sprintf("(forall ((a Int)) (! (=> %s (= (select %s a) (select %s a))) :pattern ((select %s a))))", or(protMaps...), n, old, n))
+		}
+	}
+	n := tr.havocComp("ALLOC")
+	tr.fact("(>= " + n + " " + oldAlloc + ")")
 }
 
 // leaks reports whether the address of a local allocation may become known to code outside the
@@ -963,14 +1055,23 @@ func (fc *fctx) modifiedIn(body map[*ssa.BasicBlock]bool) ([]string, bool) {
 			for _, ins := range b.Instrs {
 				switch x := ins.(type) {
 				case *ssa.Store:
-					addLeaves(x.Val.Type())
+					for _, l := range tr.u.leavesTag(x.Val.Type(), fc.addrTag(x.Addr)) {
+						mods[l.comp] = true
+					}
 				case *ssa.MapUpdate:
 					mt := x.Map.Type().Underlying().(*types.Map)
 					md, mv, _, _ := tr.u.mapComps(mt)
 					mods[md], mods[mv], mods["MLen"] = true, true, true
 				case *ssa.Alloc:
 					mods["ALLOC"] = true
-					addLeaves(x.Type().Underlying().(*types.Pointer).Elem())
+					et := x.Type().Underlying().(*types.Pointer).Elem()
+					if at, ok := et.Underlying().(*types.Array); ok {
+						for _, l := range tr.u.leavesTag(at.Elem(), "elem") {
+							mods[l.comp] = true
+						}
+					} else {
+						addLeaves(et)
+					}
 				case *ssa.MakeSlice, *ssa.MakeMap, *ssa.MakeClosure:
 					mods["ALLOC"] = true
 					if mm, ok := x.(*ssa.MakeMap); ok {
@@ -1004,7 +1105,7 @@ func (fc *fctx) modifiedIn(body map[*ssa.BasicBlock]bool) ([]string, bool) {
 				case *ssa.Convert:
 					// string -> []byte allocates
 					if _, ok := x.Type().Underlying().(*types.Slice); ok {
-						mods["ALLOC"], mods["MInt"] = true, true
+						mods["ALLOC"], mods["MInt$elem"] = true, true
 					}
 				}
 			}
@@ -1030,7 +1131,7 @@ func (tr *Translator) callMods(cc *ssa.CallCommon, depth int) ([]string, bool) {
 		case "append":
 			var out []string
 			if st, ok := cc.Args[0].Type().Underlying().(*types.Slice); ok {
-				for _, l := range tr.u.leaves(st.Elem()) {
+				for _, l := range tr.u.leavesTag(st.Elem(), "elem") {
 					out = append(out, l.comp)
 				}
 			}
@@ -1038,7 +1139,7 @@ func (tr *Translator) callMods(cc *ssa.CallCommon, depth int) ([]string, bool) {
 		case "copy":
 			var out []string
 			if st, ok := cc.Args[0].Type().Underlying().(*types.Slice); ok {
-				for _, l := range tr.u.leaves(st.Elem()) {
+				for _, l := range tr.u.leavesTag(st.Elem(), "elem") {
 					out = append(out, l.comp)
 				}
 			}
@@ -1091,7 +1192,8 @@ func (tr *Translator) callMods(cc *ssa.CallCommon, depth int) ([]string, bool) {
 		for _, ins := range b.Instrs {
 			switch x := ins.(type) {
 			case *ssa.Store:
-				for _, l := range tr.u.leaves(x.Val.Type()) {
+				tmp := &fctx{tr: tr}
+				for _, l := range tr.u.leavesTag(x.Val.Type(), tmp.addrTag(x.Addr)) {
 					mods[l.comp] = true
 				}
 			case *ssa.MapUpdate:
@@ -1100,8 +1202,15 @@ func (tr *Translator) callMods(cc *ssa.CallCommon, depth int) ([]string, bool) {
 				mods[md], mods[mv], mods["MLen"] = true, true, true
 			case *ssa.Alloc:
 				mods["ALLOC"] = true
-				for _, l := range tr.u.leaves(x.Type().Underlying().(*types.Pointer).Elem()) {
-					mods[l.comp] = true
+				et := x.Type().Underlying().(*types.Pointer).Elem()
+				if at, ok := et.Underlying().(*types.Array); ok {
+					for _, l := range tr.u.leavesTag(at.Elem(), "elem") {
+						mods[l.comp] = true
+					}
+				} else {
+					for _, l := range tr.u.leaves(et) {
+						mods[l.comp] = true
+					}
 				}
 			case *ssa.MakeSlice, *ssa.MakeMap, *ssa.MakeClosure:
 				mods["ALLOC"] = true
@@ -1122,7 +1231,7 @@ func (tr *Translator) callMods(cc *ssa.CallCommon, depth int) ([]string, bool) {
 				}
 			case *ssa.Convert:
 				if _, ok := x.Type().Underlying().(*types.Slice); ok {
-					mods["ALLOC"], mods["MInt"] = true, true
+					mods["ALLOC"], mods["MInt$elem"] = true, true
 				}
 			}
 		}
@@ -1178,7 +1287,11 @@ func (fc *fctx) frameBody(cn, now, a string) (string, bool) {
 		return "", false
 	}
 	var preds []string
-	for _, it := range by[cn] {
+	its := by[cn]
+	if strings.Contains(cn, "$") {
+		its = append(append([]assignItem{}, its...), by["*"]...)
+	}
+	for _, it := range its {
 		if it.all {
 			return "", false
 		}
@@ -1227,4 +1340,13 @@ func (fc *fctx) assumeAutoFrame(mods []string) {
 		}
 		tr.assume(fmt.Sprintf("(forall ((a Int)) (! %s :pattern ((select %s a))))", g, now))
 	}
+}
+
+// bumpEpochRegion starts a new epoch after a call that may write anything inside the objects designated
+// by the given pointers: partitions first used afterwards equal their previous-epoch value outside those objects.
+func (tr *Translator) bumpEpochRegion(regions []string) {
+	prev := tr.cur.Epoch
+	tr.epoch++
+	tr.cur.Epoch = tr.epoch
+	tr.u.epochs[tr.epoch] = epochRel{parent: prev, regions: regions, allocPre: tr.cur.get(tr.u, "ALLOC")}
 }
